@@ -476,6 +476,14 @@ func (kcp *KCP) update_ack(rtt int32) {
 
 // shrink_buf advances snd_una to the oldest unacknowledged segment in snd_buf.
 func (kcp *KCP) shrink_buf() {
+	// segments acknowledged selectively leave snd_buf once they reach its head
+	for {
+		seg, ok := kcp.snd_buf.Peek()
+		if !ok || seg.acked == 0 {
+			break
+		}
+		kcp.snd_buf.Pop()
+	}
 	if seg, ok := kcp.snd_buf.Peek(); ok {
 		kcp.snd_una = seg.sn
 	} else {
@@ -651,6 +659,7 @@ func (kcp *KCP) Input(data []byte, pktType PacketType, ackNoDelay bool) int {
 			kcp.debugLog(IKCP_LOG_IN_ACK, "conv", conv, "sn", sn, "una", una, "ts", ts, "rto", kcp.rx_rto)
 			kcp.parse_ack(sn)
 			flushSegments |= kcp.parse_fastack(sn, ts)
+			kcp.shrink_buf() // the acknowledged segment may have been the oldest
 			updateRTT |= 1
 			latest = ts
 		case IKCP_CMD_PUSH:
